@@ -192,3 +192,25 @@ pub struct RecvError { pub _p: u8 }
 pub fn vx_error_text() -> (r: String) { unimplemented!() }
 /// crossbeam Sender<Item<V>> of the bounded insert buffer: what was queued, in order (a full buffer refuses the item)
 pub struct TrySendError { pub _p: u8 }
+/// crossbeam tick message
+pub struct Instant { pub _p: u8 }
+impl<V> StoreModel<V> {
+    // the sweep as seen from the processor: [cleanup.survivors-untouched] [cleanup.handed-out] [cleanup.handed-out-once]
+    // [cleanup.removed-are-handed-out] [cleanup.charge-released] [cleanup.other-charges-kept] (proved in u6_store for both flavours)
+    #[verifier::external_body]
+    pub fn try_cleanup(&mut self, policy: &mut PolicyModel) -> (res: Result<Vec<CrateItem<V>>, CacheError>)
+        ensures res.is_ok(), final(self).item_size == old(self).item_size,
+            forall|k: u64| #[trigger] final(self).view@.contains_key(k) ==> old(self).view@.contains_key(k) && final(self).view@[k] == old(self).view@[k],
+            forall|i: int| 0 <= i < res.unwrap()@.len() ==> old(self).view@.contains_key((#[trigger] res.unwrap()@[i]).index) && !final(self).view@.contains_key(res.unwrap()@[i].index)
+                && res.unwrap()@[i].val == Some(old(self).view@[res.unwrap()@[i].index].value) && res.unwrap()@[i].conflict == old(self).view@[res.unwrap()@[i].index].conflict
+                && res.unwrap()@[i].exp == old(self).view@[res.unwrap()@[i].index].expiration,
+            forall|i: int, j: int| 0 <= i < j < res.unwrap()@.len() ==> res.unwrap()@[i].index != res.unwrap()@[j].index,
+            forall|k: u64| #[trigger] old(self).view@.contains_key(k) && !final(self).view@.contains_key(k) ==> !final(policy).charges@.contains_key(k) && exists|i: int| 0 <= i < res.unwrap()@.len() && (#[trigger] res.unwrap()@[i]).index == k,
+            forall|k: u64| #[trigger] final(policy).charges@.contains_key(k) ==> old(policy).charges@.contains_pair(k, final(policy).charges@[k]),
+            forall|k: u64| #[trigger] old(policy).charges@.contains_key(k) && !final(policy).charges@.contains_key(k) ==> old(self).view@.contains_key(k),
+            // [cleanup.charge-released-only-with-its-entry] (keys told apart by their index hash)
+            old(self).no_index_collisions() ==> forall|k: u64| #[trigger] old(policy).charges@.contains_key(k) && !final(policy).charges@.contains_key(k) ==> !final(self).view@.contains_key(k),
+    { unimplemented!() }
+    /// "keys are told apart by their index hash": no stale expiry listing carries an incompatible conflict hash
+    pub uninterp spec fn no_index_collisions(&self) -> bool;
+}
